@@ -852,7 +852,8 @@ class PyvalColorizer:
             self._output(flags_str, self.RE_FLAGS_TAG, state)
 
     def _colorize_re_tree(self, tree: Sequence[Tuple[sre_constants._NamedIntConstant, Any]],
-                          state: _ColorizerState, noparen: bool, groups: Dict[int, str]) -> None:
+                          state: _ColorizerState, noparen: bool, groups: Dict[int, str],
+                          inset: bool = False) -> None:
 
         if len(tree) > 1 and not noparen:
             self._output('(', self.RE_GROUP_TAG, state)
@@ -864,7 +865,9 @@ class PyvalColorizer:
             if op == sre_constants.LITERAL: #type:ignore[attr-defined]
                 c = chr(cast(int, args))
                 # Add any appropriate escaping.
-                if c in '.^$\\*+?{}[]|()\'': 
+                if c in '.^$\\*+?{}[]|()\'' or (inset and c == '-'):
+                    # a literal hyphen inside a set must stay escaped, 
+                    # otherwise it reads as a range.
                     c = '\\' + c
                 elif c == '\t': 
                     c = r'\t'
@@ -900,7 +903,7 @@ class PyvalColorizer:
                     self._colorize_re_tree(args, state, False, groups)
                 else:
                     self._output('[', self.RE_GROUP_TAG, state)
-                    self._colorize_re_tree(args, state, True, groups)
+                    self._colorize_re_tree(args, state, True, groups, inset=True)
                     self._output(']', self.RE_GROUP_TAG, state)
 
             elif op == sre_constants.CATEGORY: #type:ignore[attr-defined]
